@@ -213,7 +213,7 @@ def propHist (env : SynthEnv) (w0 : World) (ops : List Op) : String :=
   let rec go (w : World) (i : Nat) : List Op → String
     | [] => "OK"
     | op :: rest =>
-      let (w', out) := step env w op
+      let (w', out) := step (detect env) w op
       let dsIds := List.range w'.nDs
       -- bound_stable: what was bound stays bound to the same instance; access returns it
       let stable := (List.range w.nDs).all fun d =>
@@ -287,7 +287,7 @@ def step (line : String) : String :=
   | ["hist", reg, syn, ds, ops] =>
     match parseHist? reg syn ds ops with
     | some (su, dss, opl) =>
-      let outs := outputs (envOf su.tbl) (World.init dss su.reg) opl
+      let outs := outputs (detect (envOf su.tbl)) (World.init dss su.reg) opl
       if outs.isEmpty then "-" else joinWith "," (outs.map showOut)
     | none => "BAD"
   | ["propcheck", "detect", reg, syn, f] =>
